@@ -245,8 +245,19 @@ def frame_addsub(I, node, add, l, r):
     return None
 
 
+def eff_sign(v):
+    """sign facet, with positive literals and array extents (≥ 1 by the stated non-emptiness assumption) counted as POS"""
+    if v.sign is not None:
+        return v.sign
+    if v.known and isinstance(v.const, (int, float)) and not isinstance(v.const, bool):
+        return "POS" if v.const > 0 else ("NONNEG" if v.const == 0 else "ANY")
+    if v.tag("kind") == "int" and v.tag("dim") is not None and not v.tag("dimexpr"):
+        return "POS"
+    return None
+
+
 def sign_binop(op, l, r):
-    a, b = l.sign, r.sign
+    a, b = eff_sign(l), eff_sign(r)
     if isinstance(op, ast.Add):
         if a in ("POS", "NONNEG") and b in ("POS", "NONNEG"):
             return "POS" if "POS" in (a, b) else "NONNEG"
@@ -419,6 +430,11 @@ def binop(I, node, op, l, r):
         out.shape = S()
         if isinstance(op, ast.Mult):
             out.tags["dim"] = dim_mul(dl, dr)
+        syms = set(dl or ()) | set(dr or ()) | set(l.tag("dim_syms") or ()) | set(r.tag("dim_syms") or ())
+        if syms:
+            out.tags["dim_syms"] = frozenset(x for x in syms if not x.startswith("#"))
+        if isinstance(op, ast.Mult):
+            pass
         elif isinstance(op, (ast.FloorDiv, ast.Mod, ast.Sub, ast.Add)):
             out.tags["dimexpr"] = (opn, l, r)
             # concrete small extents (#k) support ± constants: #2 - 1 = 1
@@ -435,10 +451,21 @@ def binop(I, node, op, l, r):
         out.shp = out.shp | out.data
         out.data = E
         out.unit = ONE
+        if isinstance(op, (ast.Mult, ast.Div, ast.Add)):
+            out.sign = sign_binop(op, l, r)
+            if out.sign == "POS":
+                out.tags["isnum"] = True
         return out
     # arrays
     if isinstance(op, ast.MatMult):
         out.shape = matmul_shape(I, node, l, r)
+        for x, basis in ((l, r), (r, l)):
+            if basis.tag("truncated_basis") and not x.tag("truncated_basis"):
+                # coordinates in a proper subspace: the map is not injective — the dependence on x is "through a projection"
+                xd = x.flat().data
+                out.data = frozenset(o for o in out.data if o not in xd or o in basis.flat().data) | frozenset(
+                    o if o.endswith("|proj") else o + "|proj" for o in xd)
+                I.emit("projection", node, of=x, basis=basis)
     else:
         out.shape = broadcast_shapes(I, node, [l, r], report=True)
     if l.tag("kind") == "ndarray" or r.tag("kind") == "ndarray":
@@ -464,8 +491,30 @@ def binop(I, node, op, l, r):
     elif isinstance(op, (ast.Mult, ast.MatMult)):
         out.unit = umul(l.unit, r.unit, 1)
         out.frame = frame_mul(I, node, l, r, isinstance(op, ast.MatMult))
+        if isinstance(op, ast.Mult) and l.frame is not None and r.frame is not None:
+            # array × framed scalar (B * amax): remember the scalar's frame until its matching divisor arrives
+            for arrv, sc in ((l, r), (r, l)):
+                if sc.shape is not None and sc.shape.rank == 0 and not (arrv.shape is not None and arrv.shape.rank == 0):
+                    out.tags["scalar_factor"] = (sc.frame, sc.unit)
+        for pt in (l, r):
+            if pt.tag("point"):
+                I.type_error(node, "QTY", "a coordinate array (positions on the domain axis) is used as a multiplicative weight; "
+                                          "only differences of positions (steps) are measures", sub="point")
     elif isinstance(op, ast.Div):
         out.unit = umul(l.unit, r.unit, -1)
+        out.tags["floating"] = True
+        if {l.frame, r.frame} == {"LIGHT", "TOTAL"} and l.unit is not None and l.unit == r.unit:
+            I.type_error(node, "QTY", f"ratio of a {l.frame} capture to a {r.frame} capture (one side includes the baseline, the other "
+                                      f"does not)", sub="frame-ratio")
+        if isinstance(r.frame, tuple) and r.frame[0] == "CENT":
+            out.tags["raw_quotient_by"] = r.frame      # ±inf / sign-indefinite wherever the centred coordinate is 0 or negative
+        sf = l.tag("scalar_factor")
+        if sf is not None and {sf[0], r.frame} == {"LIGHT", "TOTAL"} and sf[1] is not None and sf[1] == r.unit \
+                and r.shape is not None and r.shape.rank == 0:
+            I.type_error(node, "QTY", f"ratio of a {sf[0]} capture to a {r.frame} capture (one side includes the baseline, the other "
+                                      f"does not)", sub="frame-ratio")
+        if r.tag("norm_of") is not None and r.tag("norm_of") == l.term and l.term not in (None, ("?",)):
+            out.tags["normalized_ord"] = r.tag("norm_ord")
         if r.frame is None or _is_lit(r):
             out.frame = l.frame
         elif r.shape is not None and r.shape.rank == 0 and not (l.shape is not None and l.shape.rank == 0):
@@ -644,10 +693,22 @@ def attribute(I, e, b):
         return Val(shp=f.data | f.shp, ctrl=f.ctrl, term=mk_term(attr, b.term))
     out = Val(data=f.data, shp=f.shp, ctrl=f.ctrl, refs=f.refs, term=mk_term("attr", attr, b.term),
               tags={"attr_of": (attr, b)})
+    if b.tag("kind") == "pca":
+        if attr == "explained_variance_ratio_":
+            out.unit = ONE
+        elif attr in ("explained_variance_", "singular_values_"):
+            out.unit = {"var[data]": 1}          # scales with the square of the data: a dimensioned quantity
     if b.tag("kind") in ("hull", "delaunay") and attr in ("vertices", "simplices", "equations", "volume", "points"):
         out.tags["hull_attr"] = attr
         out.unit = None
     return out
+
+
+def norm_text_safe(node):
+    try:
+        return M.norm_text(node)
+    except Exception:
+        return "?"
 
 
 # ------------------------------------------------------------------ subscript
@@ -703,11 +764,38 @@ def subscript(I, e, b):
         if idx.tag("hull_attr") == "simplices":
             out.tags["simplices_of"] = b
     for k in ("deg", "litfactor", "kind", "bary", "simplex_rows", "offset_id", "hull_pts", "rowsof", "maybe_zero_rows", "unit_cube",
-              "simplices_of", "poly"):
+              "simplices_of", "poly", "floating", "suffix_slice", "point", "rounded"):
         if b.tag(k) is not None:
             out.tags[k] = b.tag(k)
+    if b.tag("truncated_basis") or (b.tag("basis_factor") and any(isinstance(x, ast.Slice) and (x.upper is not None or x.lower is not None)
+                                                                   for x in _index_elems(e))):
+        out.tags["truncated_basis"] = True        # a proper subset of the orthogonal directions
+    if idx.tag("drawn_indices") or b.tag("rows_drawn"):
+        out.tags["rows_drawn"] = True            # rows selected / permuted by a random draw
+    if b.tag("sum_dim") is not None and ci is not None:
+        out.tags["sum_dim"] = b.tag("sum_dim")        # one row of a multinomial draw
     if idx.tag("zero_row_mask_of") is not None and idx.tag("zero_row_mask_inverted"):
         out.tags.pop("maybe_zero_rows", None)        # only rows with a non-zero entry are selected
+    elems = _index_elems(e)
+    el0 = elems[0] if elems else None
+    if isinstance(el0, ast.Slice) and el0.upper is None and el0.lower is not None and (
+            isinstance(el0.lower, ast.UnaryOp) and isinstance(el0.lower.op, ast.USub)):
+        out.tags["suffix_slice"] = True
+    if b.tag("corner_cloud"):
+        if isinstance(el0, ast.Slice) and (el0.lower is not None or el0.upper is not None):
+            out.tags["corner_cloud"] = True
+            out.tags["positional_subset"] = norm_text_safe(e)
+        elif idx.tag("zero_row_mask_of") is not None or (idx.tag("cmp") is not None and idx.tag("boolarr") is None and False):
+            out.tags["corner_cloud"] = True
+        elif isinstance(el0, ast.Slice):
+            out.tags["corner_cloud"] = True
+        elif idx.tag("boolarr") or idx.tag("allany") or idx.tag("kind") == "ndarray":
+            out.tags["corner_cloud"] = True          # value-dependent row selection (e.g. rows with non-zero total)
+        if b.tag("positional_subset"):
+            out.tags["positional_subset"] = b.tag("positional_subset")
+    if ci is not None and b.shape is not None and not b.shape.ell and b.shape.axes and b.shape.axes[0] == ("N",) \
+            and not I.fr.loops:
+        I.emit("const_row_pick", e, base=b, index=ci)
     elems = _index_elems(e)
     basic = True
     shape = b.shape
@@ -1062,6 +1150,10 @@ def call_builtin(I, e, name, args, kws):
             out.unit = us[0] if all(u == us[0] for u in us) else None
             if all(a.known and _is_lit(a) for a in args):
                 out.const = (min if name == "min" else max)(a.const for a in args)
+            sg = [eff_sign(a) for a in args]
+            if all(x_ == "POS" for x_ in sg) or (name == "max" and "POS" in sg):
+                out.sign = "POS"
+                out.tags["isnum"] = True
             return out
         out = mk(args, term=mk_term(name, a0.term))
         out.unit, out.frame = a0.unit, a0.frame
@@ -1232,5 +1324,7 @@ def call_extern(I, e, dotted, args, kws, method=False):
         if out.term is None or out.term == ("?",):
             out.term = mk_term("ext", dotted, *[a.term for a in args[:4]],
                                *[("kw", k, v.term) for k, v in sorted(kws.items()) if k != "**"][:4])
+    if out.tag("kind") in ("combinations", "product") and "created_loops" not in out.tags:
+        out.tags["created_loops"] = tuple(I.fr.loops)
     ev.d["result"] = out
     return out
